@@ -307,6 +307,9 @@ Fixpoint chain_run (ks : kstate) (l : list rrec) : option kstate :=
 Definition upto (j : nat) (l : list rrec) : list rrec :=
   filter (fun r => match rr_commit r with Some c => Nat.leb c j | None => false end) l.
 
+(* a broken chain prefix (chain_run = None) collapses to ks0 here; this is harmless because chain_ok tests chain_part
+   (the whole chain of the key replays) before `justified` is consulted, and upto j is prefix-closed: if the whole
+   chain replays, every prefix does *)
 Definition key_at (ks0 : kstate) (succ : list rrec) (j : nat) : kstate :=
   match chain_run ks0 (upto j succ) with Some ks => ks | None => ks0 end.
 
